@@ -16,20 +16,22 @@ import (
 // a plain sorted-map oracle (map + sort) with which the properties' own statements are
 // evaluated directly on the implementation.
 type Session struct {
-	Cfg     Cfg
-	Store   *RecStore
-	Cache   mast.NodeCache
-	Trees   map[int]*mast.Mast
-	Roots   map[int]*mast.Root
-	Oracle  map[int]map[uint64]uint64
-	ROracle map[int]map[uint64]uint64 // contents at MakeRoot time, per root slot
-	Cursors map[int]*mast.Cursor
-	canonSeen map[string]string
-	curs      map[int]*curState
-	lastHeight int
-	bases      map[int]*baseInfo
-	written    map[string]string
-	ctx     context.Context
+	Cfg             Cfg
+	Store           *RecStore
+	Cache           mast.NodeCache
+	Trees           map[int]*mast.Mast
+	Roots           map[int]*mast.Root
+	Oracle          map[int]map[uint64]uint64
+	ROracle         map[int]map[uint64]uint64 // contents at MakeRoot time, per root slot
+	Cursors         map[int]*mast.Cursor
+	canonSeen       map[string]string
+	curs            map[int]*curState
+	lastHeight      int
+	bases           map[int]*baseInfo
+	written         map[string]string
+	lastMaxInflight int
+	lastFlushTrace  string
+	ctx             context.Context
 }
 
 func NewSession(cfg Cfg) *Session {
@@ -166,6 +168,12 @@ func (s *Session) Exec(line string) (obs string, viol string) {
 		return o + " ;" + strings.Join(loads, " "), v
 	case "difflinks":
 		return s.execDiffLinks(int(num(1)), int(num(2)))
+	case "flush":
+		o, v := s.execFlush(int(num(1)), int(num(2)), int64(num(3)), parseFails(t[4]))
+		if s.lastMaxInflight > lastSessionMaxInflight {
+			lastSessionMaxInflight = s.lastMaxInflight
+		}
+		return o, v
 	case "new":
 		r := mast.NewRoot(createOpts(s.Cfg))
 		m, err := r.LoadMast(s.ctx, s.remoteConfig())
@@ -422,6 +430,18 @@ func checkName(c StoreCall) string {
 // their argument (the entry list) from the harness's oracle rather than from mast.
 func (s *Session) ModelLine(line string) string {
 	t := strings.Fields(line)
+	if t[0] == "flush" {
+		// the model replays the trace the implementation produced
+		tr := s.lastFlushTrace
+		if tr == "" {
+			tr = "none"
+		}
+		exact := "1"
+		if s.Cache != nil {
+			exact = "0"
+		}
+		return fmt.Sprintf("flushtrace %s %s 40 %s %s", t[1], t[2], exact, tr)
+	}
 	if t[0] == "diffc" {
 		return "diff " + strings.Join(t[1:], " ")
 	}
